@@ -145,13 +145,24 @@ def run(res, tier, lean, prop="C01", proof_breaks=(), build_log=""):
     #      burst): no model for this regime - the real runs are judged by the property's own observables
     burst_runs = []
     nb = 10 if thorough else 3
-    for i in range(nb):
+    plan = [None] * nb
+    if prop == "C07":
+        # a nested burst during which the directory about to be watched vanishes just before the k-th follow-up
+        # inotify_add_watch - every k of the burst's watch calls (quick: the first three)
+        plan += [("fault", k) for k in ((1, 2, 3, 4, 5) if thorough else (1, 2, 3))]
+    for i, what in enumerate(plan):
         init_b, bursts = pipe.gen_bursts(r, r.randint(3, 6))
+        if what is not None:
+            init_b = [("mkdir", "W/d")]
+            bursts = [[("mkdir", "W/n"), ("mkdir", "W/n/dd"), ("create", "W/n/dd/b"), ("mkdir", "W/n/dd/d"), ("create", "W/n/a")],
+                      [("create", "W/d/a")]]
         recursive = True if prop != "C02" else (i % 3 != 2)
         full = r.random() < 0.25
         small = r.random() < 0.4
         vanish = None
-        if prop == "C07" and i % 2 == 1:
+        if what is not None:
+            vanish = what[1]
+        elif prop == "C07" and i % 2 == 1:
             vanish = r.randint(1, 6)        # a directory vanishes just before the k-th follow-up inotify_add_watch
         out = pipe.run_bursts(init_b, bursts, recursive=recursive, full=full, small_reads=small, vanish_at=vanish)
         if out["timeout"] and not out["thread_errors"]:
